@@ -300,6 +300,53 @@ func genPack(r *rand.Rand, thorough bool, emit func(c, cat string)) {
 			emit(packCase(r, msg, false, c, 0, fmt.Sprint(capN)), "cap")
 		}
 	}
+	// names that land at offsets around the 14-bit pointer limit 0x3FFF: a leading raw record pushes the
+	// second record's owner name (and, in the second family, its second label) to 0x3FFF-3 .. 0x3FFF+3
+	for delta := -3; delta <= 3; delta++ {
+		for fam := 0; fam < 2; fam++ {
+			q := wireLabels([]byte("q"))
+			owner := wireLabels([]byte("far"), []byte("example"), []byte("com"))
+			start := 12 + len(q) + 4 // offset of the first answer record
+			target := 0x3FFF + delta // where the owner name (fam 0) / its second label (fam 1) must start
+			if fam == 1 {
+				target -= 4
+			}
+			l := target - start - (1 + 10)
+			toks := []string{"h=9,1,0,0,0,1,1,0,0,0", "q=" + hexs(q) + ",1,1",
+				fmt.Sprintf("an=-,65280,1,0,raw,%s", hexs(make([]byte, l))),
+				fmt.Sprintf("an=%s,1,1,60,a,0a000001", hexs(owner)),
+				fmt.Sprintf("an=%s,1,1,60,a,0a000002", hexs(owner)),
+				fmt.Sprintf("an=%s,5,1,60,name,%s", hexs(wireLabels([]byte("x"), []byte("example"), []byte("com"))), hexs(owner)),
+				fmt.Sprintf("ns=%s,2,1,60,name,%s", hexs(wireLabels([]byte("example"), []byte("com"))), hexs(wireLabels([]byte("com"))))}
+			for c := 0; c < 2; c++ {
+				emit(packCase(r, strings.Join(toks, " "), true, c, 0, "len"), "far")
+			}
+		}
+	}
+	// decode-then-repack: what the real decoder accepted (from compressed and pointer-mutated wire data) is packed again
+	for i := 0; i < n/10; i++ {
+		g := newMsgGen(r)
+		m := parseMsg(g.msg())
+		buf := make([]byte, m.Len())
+		k, err := m.Pack(buf, true, 0)
+		dnsmsg.ReleaseMsg(m)
+		if err != nil {
+			continue
+		}
+		mb := append([]byte(nil), buf[:k]...)
+		if len(mb) > 14 && r.Intn(2) == 0 { // redirect some name byte to an earlier offset
+			p := 12 + r.Intn(len(mb)-13)
+			tgt := 12 + r.Intn(p-11)
+			mb[p], mb[p+1] = 0xC0|byte(tgt>>8), byte(tgt)
+		}
+		m2, err := dnsmsg.UnpackMsg(mb)
+		if err != nil {
+			continue
+		}
+		txt := msgText(m2)
+		dnsmsg.ReleaseMsg(m2)
+		emit(packCase(r, txt, false, r.Intn(2), 0, "len"), "repack")
+	}
 	// big truncation scenario: many equal records around the 512 limit
 	for k := 1; k <= 12; k++ {
 		toks := []string{"h=7,1,0,0,0,1,1,0,0,0", "q=" + hexs(wireLabels([]byte("t"), []byte("test"))) + ",16,1"}
